@@ -72,6 +72,9 @@ def judge_c19(case, impl, model, spec):
         if v[0] != 0: return ("violation", f"{v[0]} heap allocations while demultiplexing steady-state packets (all PIDs seen, tables stable)")
         if v[1] != 0: return ("violation", f"{v[1]} payload slices delivered to consumers lie outside the buffer passed to push")
         if v[3] != 0: return ("violation", f"{v[3]} handler requests during the steady state")
+    if case.startswith("SECA"):
+        if v[0] != 0: return ("violation", f"{v[0]} heap allocations while the section chain re-assembles repetitions of a stable section (its buffer is not re-used)")
+        return ("correspondence", "the number of sections delivered in the steady part differs from the number transmitted")
     if case.startswith("MEM") and v[0] != 1:
         return ("violation", "retained heap memory keeps growing with the length of a hostile stream (or exceeds the bound)")
     return ("correspondence", "the number of payload slices differs from the model's")
@@ -329,6 +332,7 @@ PROPS = {
         assumptions=["'previous packet delivered' means delivered to this filter: packets with transport_error_indicator or scrambling never reach it (C06)"],
     ),
     "C16": dict(
+        fuzzing=True,
         props_files=["Props/C16.v"],
         suites=["C16"],
         render=r_stream,
@@ -340,6 +344,7 @@ PROPS = {
         assumptions=["input bytes are < 256"],
     ),
     "C17": dict(
+        fuzzing=True,
         props_files=["Props/C17.v"],
         suites=["C17"],
         render=r_stream,
@@ -366,6 +371,7 @@ PROPS = {
         assumptions=["input bytes are < 256", "the CRC gate is stated for the normal build; under cfg(fuzzing) the comparison is bypassed by design"],
     ),
     "C14": dict(
+        fuzzing=True,
         props_files=["Props/C14.v"],
         suites=["C14"],
         render=r_c14,
@@ -380,6 +386,7 @@ PROPS = {
                      "PesExtension is opaque in the crate: only presence is observed"],
     ),
     "C13": dict(
+        fuzzing=True,
         props_files=["Props/C13.v"],
         suites=["C13"],
         render=r_c13,
@@ -391,6 +398,7 @@ PROPS = {
         assumptions=["input bytes are < 256", "AdaptationField::new is only specified for non-empty slices (its documented precondition)"],
     ),
     "C15": dict(
+        fuzzing=True,
         props_files=["Props/C15.v"],
         suites=["C15"],
         render=r_c15,
@@ -402,6 +410,7 @@ PROPS = {
         assumptions=["input bytes are < 256", "from_bytes / from_slice are only specified for buffers of at least 5 / 6 bytes (their documented precondition)"],
     ),
     "C12": dict(
+        fuzzing=True,
         props_files=["Props/C12.v"],
         suites=["C12"],
         render=r_hex1("run_packet_c12"),
